@@ -91,6 +91,30 @@ def h_hist_openFile : Nat := 0x8a9c3bde26b1aeb2
 /-- hash of the normalised skeleton of createFile (internal/util/utils.go) -/
 def h_hist_createFile : Nat := 0x22b178cdaab95c58
 
+/-- hash of the normalised skeleton of LoadLatest (internal/persistence/filecache/filecache.go) -/
+def h_fcache_Cache_LoadLatest : Nat := 0x03d5fc21fe19ba67
+
+/-- hash of the normalised skeleton of IsStale (internal/persistence/filecache/filecache.go) -/
+def h_fcache_Cache_IsStale : Nat := 0xa0f4c95dd2940a0c
+
+/-- hash of the normalised skeleton of Store (internal/persistence/filecache/filecache.go) -/
+def h_fcache_Cache_Store : Nat := 0xdc01969b5b6b1be7
+
+/-- hash of the normalised skeleton of Entry (internal/persistence/filecache/filecache.go) -/
+def h_fcache_Cache_Entry : Nat := 0xd3438ffb37ef079b
+
+/-- hash of the normalised skeleton of Invalidate (internal/persistence/filecache/filecache.go) -/
+def h_fcache_Cache_Invalidate : Nat := 0x576bd7e83207dc3c
+
+/-- hash of the normalised skeleton of Load (internal/persistence/filecache/filecache.go) -/
+def h_fcache_Cache_Load : Nat := 0x02d4ce9d73a1f0f5
+
+/-- hash of the normalised skeleton of evict (internal/persistence/filecache/filecache.go) -/
+def h_fcache_Cache_evict : Nat := 0xc49a2b8e995d37a1
+
+/-- hash of the normalised skeleton of newEntry (internal/persistence/filecache/filecache.go) -/
+def h_fcache__newEntry : Nat := 0xd68a5875d07119f5
+
 def dateFormat : List String := ["\"20060102\""]
 
 def dateTimeFormat : List String := ["\"20060102.15:04:05.000\""]
